@@ -526,10 +526,17 @@ def eval_repr(case):
     elif shape % 3 == 2:
         value = [value, [o for o in objs]]
     kw = dict(opts)
+    # several documents: a callback may fail in a later document, after earlier ones were written completely; the
+    # documents before it have an open-ended root (plain scalar, keep-chomped block scalar) or a collection root
+    first = [["plain root"], ["text\n\n"], [{"a": 1}], []][shape % 4]
+    docs = first + [value] + ([objs[0]] if shape % 2 else [])
+
+    def do_dump(stream):
+        return yaml.dump_all(docs, stream, Dumper=D, **kw)
     state["n"] = 0
     w0 = FaultyWriter(0, exc_type, False, False)
     try:
-        yaml.dump(value, w0, Dumper=D, **kw)
+        do_dump(w0)
     except Exception as e:
         raise AssertionError("fault-free dump failed: %r" % e)
     total = state["n"]
@@ -541,7 +548,7 @@ def eval_repr(case):
         state.update(n=0, fail_at=j, exc=None)
         w = FaultyWriter(0, exc_type, False, False)
         try:
-            yaml.dump(value, w, Dumper=D, **kw)
+            do_dump(w)
             failures.append(Failure("fault-swallowed:representer:%s" % kind, "fault at callback #%d of %d did not reach the caller" % (j, total)))
         except BaseException as e:
             if e is not state["exc"]:
@@ -555,7 +562,7 @@ def eval_repr(case):
             break
     state.update(n=0, fail_at=0)
     try:
-        if yaml.dump(value, Dumper=D, **kw) != full:
+        if yaml.dump_all(docs, Dumper=D, **kw) != full:
             failures.append(Failure("same-class-differs-after-fault:representer", ""))
     except BaseException as e:
         failures.append(Failure("same-class-unusable-after-fault:representer:%s" % exc_key(e), exc_msg(e)))
